@@ -153,6 +153,14 @@ EventsCalls(rt, cd, n) ==
       SudoWasm(A, "sudo"),
       ExecuteCall("u1", << Send("u2", 1), Exec(A, <<>>) >>) }
 
+(* the same menu with a contract written against the EMPTY message type at the root (code 3, lifted by
+   ContractWrapper::new_with_empty / with_*_empty: its responses pass through customize_response) *)
+EventsECalls(rt, cd, n) ==
+    { ExecuteCall("u1", << Exec("c3_3", <<>>) >>),
+      ExecuteCall("u1", << Inst(3, "Li", "u1", <<>>, "") >>),
+      ExecuteCall("u1", << Migrate(A, 3) >>),
+      SudoWasm("c3_3", "sudo") }
+
 (* ====================================================================== *)
 (* funds: C05 - caller, own address, block, attached funds *)
 FundsSet == {<<>>, Eth(1), Eth(2), Eth(3), << <<"eth", 1>>, <<"btc", 1>> >>}
@@ -312,7 +320,8 @@ StakeDen(op, v, den, n) == [k |-> "stake", op |-> op, v |-> v, v2 |-> "", coin |
 Redel(v, v2, n) == [k |-> "stake", op |-> "redelegate", v |-> v, v2 |-> v2, coin |-> <<"eth", n>>]
 Withdraw(v) == [k |-> "distr", op |-> "withdraw", v |-> v, to |-> ""]
 SetW(to) == [k |-> "distr", op |-> "set_withdraw", v |-> "", to |-> to]
-Advance(dt) == [k |-> "advance", dt |-> dt]
+Advance(dt) == [k |-> "advance", dt |-> dt, via |-> "update"]
+AdvanceSet(dt) == [k |-> "advance", dt |-> dt, via |-> "set"]
 Slash(v, p) == [k |-> "sudo_slash", v |-> v, p |-> p]
 ModsStake == [s \in Slots |-> IF s \in {"staking", "distribution"} THEN "real" ELSE "fail"]
 GenesisStake ==
@@ -341,7 +350,7 @@ StakeCalls(rt, cd, n) ==
                Stake("undelegate", "v1", 1), Stake("undelegate", "v1", 2), Stake("undelegate", "v1", 5), StakeDen("undelegate", "v1", "btc", 1),
                Redel("v1", "v2", 1), Redel("v1", "vx", 1), Withdraw("v1"), Withdraw("vx"), SetW("u2"), SetW("bad")} }
     \cup (IF Level > 1 THEN { ExecuteCall("u1", <<m>>) : m \in {Redel("v2", "v1", 0), SetW("u1"), Withdraw("v2"), Stake("undelegate", "v2", 1)} } ELSE {})
-    \cup { ExecuteCall("u1", << Exec(A, <<>>) >>), [k |-> "next_block"], Advance(10) }
+    \cup { ExecuteCall("u1", << Exec(A, <<>>) >>), [k |-> "next_block"], Advance(10), AdvanceSet(10) }
     \cup UNION { { Slash(v, p) : p \in {q \in {"half", "all", "over"} : q \in {"all", "over"} \/ SlashExact(rt.sk, v, "half")} } :
                     v \in {"v1"} \cup (IF Level > 1 THEN {"v2", "vx"} ELSE {}) }
 ModsAcceptAll == ModsFor(Slots)
